@@ -154,6 +154,7 @@ pub fn worker_main(prop: &dyn Property, tier: Tier, seed: u64, start: u64, strid
     let mut sim_us = 0u64;
     let mut samples: Vec<Json> = vec![];
     let mut seen_keys: BTreeMap<String, u64> = BTreeMap::new();
+    let trace_runs = std::env::var("VERIF_TRACE_RUNS").is_ok();
     let mut run = start;
     while run < end {
         {
@@ -163,6 +164,17 @@ pub fn worker_main(prop: &dyn Property, tier: Tier, seed: u64, start: u64, strid
         }
         let case = case_for(prop, seed, tier, run);
         let v = case.execute();
+        if trace_runs {
+            let mut o = stdout.lock();
+            let _ = writeln!(
+                o,
+                "R {} {:x} {} {}",
+                run,
+                v.fingerprint,
+                v.violation.as_ref().map(|x| x.key.replace(' ', "_")).unwrap_or_else(|| "-".into()),
+                v.discarded.as_ref().map(|x| x.replace(' ', "_")).unwrap_or_else(|| "-".into())
+            );
+        }
         evaluations += 1;
         executions += v.executions.max(1);
         instr += v.instr;
@@ -182,7 +194,7 @@ pub fn worker_main(prop: &dyn Property, tier: Tier, seed: u64, start: u64, strid
         if let Some(viol) = v.violation {
             let n = seen_keys.entry(viol.key.clone()).or_insert(0);
             *n += 1;
-            if *n == 1 {
+            if *n == 1 && !trace_runs {
                 let (min_case, path, execs) = minimise(case, &viol.key, 1500);
                 let mv = min_case.execute();
                 let detail = mv
@@ -828,6 +840,92 @@ pub fn replay_child(prop_lookup: &dyn Fn(&str) -> Option<&'static dyn Property>,
         None => {
             println!("no violation on this scenario");
             0
+        }
+    }
+}
+
+
+// ---------------------------------------------------------------------------
+// determinism self-test
+
+fn trace_runs(prop: &dyn Property, tier: Tier, seed: u64, runs: u64, workers: usize) -> Result<BTreeMap<u64, String>, String> {
+    let exe = std::env::current_exe().map_err(|e| e.to_string())?;
+    let mut children = vec![];
+    for w in 0..workers {
+        let child = Command::new(&exe)
+            .arg("worker")
+            .arg(prop.id())
+            .arg(tier.name())
+            .arg(seed.to_string())
+            .arg(w.to_string())
+            .arg(workers.to_string())
+            .arg(runs.to_string())
+            .env("VERIF_TRACE_RUNS", "1")
+            .stdin(Stdio::null())
+            .stdout(Stdio::piped())
+            .stderr(Stdio::null())
+            .spawn()
+            .map_err(|e| e.to_string())?;
+        children.push(child);
+    }
+    let mut map = BTreeMap::new();
+    for mut c in children {
+        let out = c.stdout.take().ok_or("no stdout")?;
+        for line in BufReader::new(out).lines().map_while(|l| l.ok()) {
+            if let Some(rest) = line.strip_prefix("R ") {
+                let mut it = rest.splitn(2, ' ');
+                if let (Some(run), Some(v)) = (it.next(), it.next()) {
+                    if let Ok(r) = run.parse::<u64>() {
+                        map.insert(r, v.to_string());
+                    }
+                }
+            }
+        }
+        let _ = c.wait();
+    }
+    Ok(map)
+}
+
+/// Every run is executed three times, in different processes and under different worker counts
+/// (hence different HashMap seeds, allocator layouts and neighbours); fingerprints of the
+/// API/event log and verdicts must be identical. Exit 0 = deterministic, 2 = divergence.
+pub fn selftest_determinism(prop: &dyn Property, tier: Tier, seed: u64, runs: u64) -> i32 {
+    let t0 = Instant::now();
+    let a = trace_runs(prop, tier, seed, runs, 16);
+    let b = trace_runs(prop, tier, seed, runs, 5);
+    let c = trace_runs(prop, tier, seed, runs, 1);
+    match (a, b, c) {
+        (Ok(a), Ok(b), Ok(c)) => {
+            let mut bad = 0;
+            for (run, va) in &a {
+                let vb = b.get(run);
+                let vc = c.get(run);
+                if vb != Some(va) || vc != Some(va) {
+                    bad += 1;
+                    if bad <= 5 {
+                        eprintln!("DIVERGENCE {} run {}: 16 workers {:?} / 5 workers {:?} / 1 worker {:?}", prop.id(), run, va, vb, vc);
+                    }
+                }
+            }
+            let complete = a.len() as u64 == runs && b.len() == a.len() && c.len() == a.len();
+            println!(
+                "determinism {} seed={} runs={} x3 processes (16/5/1 workers): {} divergent, complete={} wall={:.1}s",
+                prop.id(),
+                seed,
+                a.len(),
+                bad,
+                complete,
+                t0.elapsed().as_secs_f64()
+            );
+            if bad == 0 && complete {
+                0
+            } else {
+                2
+            }
+        }
+        _ => {
+            eprintln!("HARNESS-ERROR: could not run the workers");
+            2
         }
     }
 }
